@@ -85,6 +85,11 @@ class GslHooks(StdHooks):
         m = _CX.match(name)
         if m:
             return self.complex_call(it, m.group(1), node, args, this_cell)
+        if name in ('gsl_set_error_handler_off', 'gsl_set_error_handler'):
+            # process-global state: irrelevant to the values computed on one thread (its thread-safety is C18's rule E.deny)
+            for a in args:
+                it.eval(a)
+            return Opaque('gsl_error_handler_t')
         if name in ('gsl_matrix_complex_alloc', 'gsl_matrix_alloc', 'gsl_matrix_complex_calloc', 'gsl_matrix_calloc'):
             n1, n2 = it.eval(args[0]), it.eval(args[1])
             if not (isinstance(n1, int) and isinstance(n2, int)):
